@@ -740,9 +740,28 @@ def render_value(rng, lo, hi, basic=False):
     return puan.Bounds(lo, hi)
 
 
+def as_mapping(rng, d):
+    """the dictionary as some callers hold it: a plain dict, or (now and then) a dict SUBCLASS with a default factory —
+    `collections.defaultdict(int)`, `collections.Counter` (counts of selected items are a natural source of 0/1 values):
+    such mappings answer `d[k]` for every key, `k in d` only for the keys they hold"""
+    import collections
+    r = rng.random()
+    if r < 0.05:
+        return collections.defaultdict(int, d)
+    if r < 0.08 and all(isinstance(v, int) and not isinstance(v, bool) for v in d.values()):
+        c = collections.Counter(); c.update({k: 0 for k in d}); 
+        for k, v in d.items(): c[k] = v
+        return c
+    return d
+
+
 def render_interp(rng, I, basic=False):
     """the interpretation as a user hands it over: in 45% of the cases in ONE form throughout (plain ints wherever the value
     is a constant — what most callers write —, tuples only, Bounds only), otherwise each value in a form of its own"""
+    return as_mapping(rng, _render_interp(rng, I, basic))
+
+
+def _render_interp(rng, I, basic=False):
     r = rng.random()
     if r < 0.25:
         return {k: (lo if lo == hi else (lo, hi)) for k, (lo, hi) in I.items()}
